@@ -102,7 +102,8 @@ class IfThenElseMixedKinds(Contract):
     be combined with the other one is converted, not rescaled twice or left unscaled), for both condition values."""
     name = "pysnark.branching:if_then_else#mixed_kinds"
     vprops = ("C05", "C09", "C14")
-    sprops = eprops = ()
+    sprops = ("C02",)
+    eprops = ()
     tprops = ()
     skip_facets = "TN"
     guard_relevant = False
@@ -134,6 +135,11 @@ class IfThenElseMixedKinds(Contract):
             fn_, fd = number(f)
             d["V.selected_number"] = If(c.v(cond) == 1, rn * td == tn * rd, rn * fd == fn_ * rd)
             d["V.inv"] = c.inv(r)
+            if isinstance(r, c.LinCombBool):
+                # a result TYPED boolean is trusted to be a bit by every later operator (no booleanity constraint is
+                # added for it again): the constraints must force it to be one, whatever the witness of a raw branch
+                d["S.boolean_typed_result_is_a_bit"] = Implies(And(is01(c.eva(cond)), *[is01(c.eva(o)) for o in (t, f) if isinstance(o, c.LinCombBool)]),
+                                                               is01(c.eva(r)))
         return d
 
 
